@@ -14,7 +14,7 @@ fn line_text(class: &str, map: usize, n: usize) -> String {
         "BS" => "-----BEGIN PGP SIGNATURE-----".into(),
         "ES" => "-----END PGP SIGNATURE-----".into(),
         "E" => String::new(),
-        "T" => [["Hash: SHA256", "Hello, world!", "iQIzBAEBCAAdFiEE"], ["é日 x", "=olY7", "10%\r 20%\rdone"], ["Comment: x", "  indented", "0"]][map % 3][n % 3].to_string(),
+        "T" => [["Hash: SHA256", "Hello, world!", "iQIzBAEBCAAdFiEE"], ["é日 x", "=olY7", "10%\r 20%\rdone"], ["Comment: x", "   - an indented bullet", "0"]][map % 3][n % 3].to_string(),
         "F" => ["Package: foo", "Origin: Debian", "# comment"][(n + map) % 3].to_string(),
         "LK" => LOOKALIKES[(n + map) % LOOKALIKES.len()].to_string(),
         "D" => ["- -----BEGIN PGP SIGNATURE-----", "--", "-----BEGIN PGP SIGNATURE----- "][(n + map) % 3].to_string(),
